@@ -431,7 +431,12 @@ impl TransactionBuilder {
         inputs: &TransactionUnspentOutputs,
         strategy: CoinSelectionStrategyCIP2,
     ) -> Result<(), JsError> {
-        let mut available_inputs: Vec<&TransactionUnspentOutput> = inputs.0.iter().collect();
+        // an offered UTxO that is already an input of this transaction cannot be added again
+        let mut available_inputs: Vec<&TransactionUnspentOutput> = inputs
+            .0
+            .iter()
+            .filter(|utxo| !self.inputs.has_input(&utxo.input))
+            .collect();
         let have_no_inputs_in_tx = !self.inputs.has_inputs();
         let mut input_total = self.get_total_input()?;
         let mut output_total = self
